@@ -142,6 +142,10 @@ class E2E:
                 fx_target.ident({"a": 1, "b": "x"})
                 fx_target.second({"a": 1}, {"b": "x", "c": 1})
                 fx_target.second({"d": 1.5}, {"b": "y"})
+                # a generator that takes its first step in this session and is finished in the next one (a request handler
+                # that outlives the block): whatever the next session records of it obeys the next session's limit
+                spanning = fx_target.gen_span({"q": 1, "r": "x", "s": 2.0, "t": None})
+                next(spanning)
             if k < 10:
                 # the option was lowered (or switched off) after those traces were recorded and the store was kept: a stub
                 # generated NOW obeys the limit in force now. (Only dicts passed directly are judged: the statement speaks of
@@ -180,6 +184,8 @@ class E2E:
                     if i + 1 < len(vs):
                         list(fx_target.gen(v, vs[i + 1]))
                     fx_target.C().m(v)
+                spanned = list(spanning)
+                ctx.label("generator-spanning-two-sessions")
                 # functions that change the dict they were given in place and hand the same object back: what they return
                 # is an empty / integer-keyed dict, whatever it was when the call started
                 handed_back = {"emptied": [], "rekeyed": [], "gen_emptied": []}
